@@ -205,6 +205,12 @@ def run(rep, tier, build, replay=None):
                 break
         if any(op[0] == 'remove' for op in hist) and installed:
             nontriv.add(common.canon_hash(hist + [case['universe']]))
+    import addmodel
+    pb = {'run_add': [], 'run_remove': [], 'run_add_ili': []}
+    for h, rec in list(zip(hs, recs))[:(14 if tier == 'quick' else 200)]:
+        for fn, ps in addmodel.trace_pairs(h['ops'], rec).items():
+            pb[fn] += ps
+    addmodel.run_correspondence(rep, common, pb, 'c05')
     rep.coverage.update({
         'evaluations': n,
         'distinct_nontrivial': len(nontriv),
